@@ -78,6 +78,7 @@ class Summary:
         self.notes = sorted(interp.notes)
         self.letter_forms = dict(interp.letter_forms)
         self.lookup_normalised = dict(interp.lookup_normalised)
+        self.reg_tables = set(interp.reg_tables)       # tables the register operands of this binding are looked up in
         self.imprecise = (state.imprecise or state.forks != UNIVERSE) if state is not None else False
         top = {}
         for b in (self.bits or ()):
@@ -220,9 +221,16 @@ def summarise_binding(facts, mnemonic, binding_name=None):
                 kwargs[k] = v
         for p in open_params:
             kwargs[p] = Param(p)
-        # optional keyword-only parameters (aq, rl) stay open operands as well
+        # optional keyword-only parameters (aq, rl) stay open operands as well - when the ISA form of the mnemonic has an operand
+        # of that name; any other option with a default (a flag nobody passes: resolve_instructions hands over args() and aq= / rl=
+        # only, see packrule) keeps its default
+        from . import oracle as _oracle
+        spec_ = _oracle.RV32.get(mnemonic) or _oracle.RVC.get(mnemonic)
+        roles_ = {op['role'] for op in spec_['operands']} if spec_ else None
         for a, d in zip(fdef.args.kwonlyargs, fdef.args.kw_defaults):
             if a.arg not in kwargs and d is not None and a.arg != 'cs':
+                if roles_ is not None and a.arg not in roles_ and len(open_params) >= len(spec_['operands']):
+                    continue
                 kwargs[a.arg] = Param(a.arg)
                 open_params.append(a.arg)
         result = interp.run_function(fv, [], kwargs, st)
